@@ -581,10 +581,37 @@ func (w *World) resolveUp(root *ssa.Function, v ssa.Value) ssa.Value {
 			return v
 		}
 		sites := w.sitesIn(root, g)
+		idx := paramIndex(p)
+		if len(sites) > 1 && len(sites) <= 8 && idx >= 0 && !w.upBusy[p] {
+			// several call sites that all pass the same thing (a carrier record handed from method to method)
+			if w.upBusy == nil {
+				w.upBusy = map[*ssa.Parameter]bool{}
+			}
+			w.upBusy[p] = true
+			var common ssa.Value
+			same := true
+			for _, site := range sites {
+				args := site.Common().Args
+				if idx >= len(args) {
+					same = false
+					break
+				}
+				a := w.recordOf(root, args[idx])
+				if a == nil || (common != nil && a != common) {
+					same = false
+					break
+				}
+				common = a
+			}
+			delete(w.upBusy, p)
+			if same && common != nil {
+				return common
+			}
+			return v
+		}
 		if len(sites) != 1 {
 			return v
 		}
-		idx := paramIndex(p)
 		args := sites[0].Common().Args
 		if idx < 0 || idx >= len(args) {
 			return v
@@ -592,6 +619,39 @@ func (w *World) resolveUp(root *ssa.Function, v ssa.Value) ssa.Value {
 		v = throughCell(strip(args[idx]))
 	}
 	return v
+}
+
+// recordOf: the local struct allocation that v (a pointer to it, a whole-value load of it, or a helper parameter
+// bound to one of these) denotes; nil when v is not such a record.
+func (w *World) recordOf(root *ssa.Function, v ssa.Value) ssa.Value {
+	for i := 0; i < 6 && v != nil; i++ {
+		v = strip(v)
+		switch x := v.(type) {
+		case *ssa.Alloc:
+			if _, isStruct := x.Type().(*types.Pointer).Elem().Underlying().(*types.Struct); !isStruct {
+				return nil
+			}
+			if stores, ok := cellStores(x); ok && len(stores) == 1 && len(FieldStores(x.Parent(), x)) == 0 {
+				v = stores[0].Val
+				continue
+			}
+			return x
+		case *ssa.UnOp:
+			if x.Op != token.MUL {
+				return nil
+			}
+			v = x.X
+		case *ssa.Parameter:
+			u := w.resolveUp(root, x)
+			if u == ssa.Value(x) {
+				return nil
+			}
+			v = u
+		default:
+			return nil
+		}
+	}
+	return nil
 }
 
 // canon: the SSA value that v denotes once value-preserving wrappers, single-store variables, helper parameters
